@@ -33,29 +33,31 @@ PROPS['C08'] = {
 
 PROPS['C04'] = {
     'level': 'proof',
-    'units': ['C04/occ', 'C04/less'],
+    'units': ['C04/occ', 'C04/less', 'C04/invert'],
     'kani': [],
     'oracle': 'C04',
     'decided': ['bwt(text, pos)[r] is the symbol cyclically preceding suffix pos[r]',
                 'less(bwt, alphabet)[c] == number of symbols < c (via prescan == exclusive prefix sums)',
-                'Occ::new builds checkpoint tables that are exact for every alphabet symbol and the sentinel; Occ::get(r, a) == #a in bwt[0..=r] for every sampling rate k >= 1 including the k > 64 look-ahead branch'],
-    'undecided': ['invert_bwt / bwtfind (LF-mapping theorem over a sorted suffix array; needs the suffix-order theory)'],
-    'trusted': ['bytecount::count stub == counting spec', 'Alphabet/BitSet stub (members, max_symbol, is_word, ascending duplicate-free collect)'],
-    'level_text': 'Verus proves bwt, less (with prescan) and Occ::new/Occ::get exact against counting specifications for all texts, alphabets and sampling rates; invert_bwt is not decided.',
-    'level_note': 'Trusted: Verus/Z3, stubs for bytecount::count and alphabets::Alphabet (bit_set), vstd Vec/slice specs; invert_bwt undecided.',
+                'Occ::new builds checkpoint tables that are exact for every alphabet symbol and the sentinel; Occ::get(r, a) == #a in bwt[0..=r] for every sampling rate k >= 1 including the k > 64 look-ahead branch',
+                'bwtfind(bwt)[slot(r)] == r with slot(r) = #smaller symbols + #earlier rows with the same symbol (the inverse-LF table), and invert_bwt(bwt) == text for EVERY single-sentinel text whose BWT (under its sorted suffix array, sentinel suffix first) this is (unit C04/invert: the LF-mapping theorem LF(r) = less(c) + occ(r, c) - 1 is proved from the suffix-order theory by a permutation-counting argument and an order-preservation argument, then used for the real bwtfind / invert_bwt loops)'],
+    'undecided': [],
+    'trusted': ['bytecount::count stub == counting spec', 'Alphabet/BitSet stub (members, max_symbol, is_word, ascending duplicate-free collect)', 'C04/invert: the contract of less() proved in C04/less is restated on a stub; Alphabet::new(text) stub (exactly the symbols of the text)'],
+    'level_text': 'Verus proves bwt, less (with prescan) and Occ::new/Occ::get exact against counting specifications for all texts, alphabets and sampling rates, and invert_bwt(bwt(text)) == text for single-sentinel texts via a machine-checked LF-mapping theorem.',
+    'level_note': 'Trusted: Verus/Z3, stubs for bytecount::count and alphabets::Alphabet (bit_set), vstd Vec/slice specs.',
 }
 
 PROPS['C05'] = {
     'level': 'other',
-    'units': ['C05/fmindex', 'C04/less'],
+    'units': ['C05/fmindex', 'C04/less', 'C04/invert'],
     'kani': [],
     'oracle': 'C05',
     'decided': ['Occ::new / Occ::get exact for every sampling rate (same regions as C04/occ, verified again inside this unit), less / bwt exact (unit C04/less)', 'FMIndex::{new, occ, less, bwt}: the concrete index implements the trait contracts with spec_occ = number of a in bwt[0..=r] and spec_less = number of smaller symbols, and the counting laws (bounds, monotone, 1-Lipschitz) are PROVED of it', 'FMIndexable::backward_search (the real default method) returns Complete/Partial/Absent exactly as defined by the LF recurrence l\' = less(a)+occ(l-1,a), r\' = less(a)+occ(r,a)-1 over the pattern read right to left; no arithmetic underflow given less(a) >= 1 for pattern symbols'],
-    'undecided': ['link between the LF recurrence and suffix-array occurrences (Ferragina-Manzini theorem: assumed, mathematics not code)',
+    'decided_extra': ['the FM-index theorem for single-sentinel texts (unit C04/invert, theorem_backward_search, stated over the SAME recurrence `bs` the real loop is proved against): after consuming the last k symbols of a sentinel-free pattern the recurrence interval holds exactly the suffix-array rows of the suffixes starting with those k symbols, and is empty exactly when they do not occur - so Complete/Partial/Absent and the reported intervals mean occurrence sets'],
+    'undecided': ['the FM-index theorem for texts with several sentinels (the suffix order among sentinel suffixes is positional there; the machine-checked theorem covers one sentinel)',
                   'Interval::occ and sampled suffix array resolution (iterator adapter chain)', 'owned / Arc-shared component instantiations (the proof instantiates the components at shared references)'],
     'trusted': ['bytecount::count and Alphabet stubs (as in C04)', 'Borrow::borrow on a reference is the identity (rule RBW)'],
-    'level_text': 'Verus proves the real backward_search loop against the textbook LF recurrence (result cases, matched length, no underflow) for every implementor satisfying the stated counting laws; the step from the recurrence to occurrence sets is the FM-index theorem and is assumed.',
-    'level_note': 'Level other: proof of the search loop against the recurrence; occurrence semantics rests on the (assumed) LF-mapping theorem and on C04 for the tables.',
+    'level_text': 'Verus proves the real backward_search loop against the textbook LF recurrence (result cases, matched length, no underflow) for every implementor satisfying the stated counting laws; the step from the recurrence to occurrence sets is the FM-index theorem, machine-checked here for single-sentinel texts (assumed for multi-sentinel texts).',
+    'level_note': 'Level other: proof of the search loop against the recurrence; occurrence semantics by the machine-checked LF/FM theorem (single sentinel) and C04 for the tables.',
 }
 
 PROPS['C07'] = {
